@@ -7,7 +7,7 @@
     plus sample-by-sample traces of every effect against the C13 effect models ([CTrace]), which
     are the terms the C14 theorems are about. *)
 From Coq Require Import ZArith List Bool.
-From KV Require Import Base.IEEE Base.Outcome Base.Corr C19.ModelF32 C13.Run.
+From KV Require Import Base.IEEE Base.Outcome Base.Corr C13.ModelOps C19.ModelF32 C13.Run C14.SpecFreeverb.
 Import ListNotations.
 Local Open Scope Z_scope.
 
@@ -16,6 +16,7 @@ Inductive case :=
 | CPan (p : Z) (input : list (Z * Z))
 | CDist (hard : Z) (db : Z) (tab : list (Z * Z)) (input : list (Z * Z))
 | CEcho (D : Z) (fb : Z) (tab : list (Z * Z)) (mix : Z) (a b : Z) (N : Z)
+| CFreeverb (sr : Z) (fb damp width : Z) (mix : Z) (input : list (Z * Z))   (* f64 x3, f32; the reference network *)
 | CTrace (c : C13.Run.case).
 
 (** [10.0f32.powf(x)] as a table (argument bits, result bits) recorded from the platform's libm *)
@@ -70,5 +71,10 @@ Definition run (c : case) : list Z :=
                   let xb := if n =? 0 then f32_of_bits b else Z32 0 in
                   (mix32 (echo32 D g (f32_of_bits a) n) xa m, mix32 (echo32 D g (f32_of_bits b) n) xb m))
                (zrange N))
+  | CFreeverb sr fb damp width mix input =>
+      flat_map (fun fr => [bits_of_f32 (fst fr); bits_of_f32 (snd fr)])
+        (freeverb consts_f32 (fv_sizes sr fv_comb_tunings) (fv_sizes sr fv_allpass_tunings)
+                  (f64_to_f32 (f64_of_bits fb)) (f64_to_f32 (f64_of_bits damp))
+                  (f64_to_f32 (eff (f64_of_bits width))) (eff (f32_of_bits mix)) (frames input))
   | CTrace c13 => C13.Run.run c13
   end.
